@@ -52,6 +52,11 @@ pub struct Harness {
     pub prop_evals: u64,
     pub samples: Vec<String>,
     pub exhaustive_notes: Vec<String>,
+    /// bytes allocated at the peak of the last case, above the level before it started
+    pub last_peak: usize,
+    /// when set, the request line is written here BEFORE the case runs: if the process aborts
+    /// (allocation failure, stack overflow) the check can still name the failing input
+    pub trace_path: Option<std::path::PathBuf>,
 }
 
 impl Harness {
@@ -67,6 +72,8 @@ impl Harness {
             prop_evals: 0,
             samples: vec![],
             exhaustive_notes: vec![],
+            last_peak: 0,
+            trace_path: None,
         }
     }
     pub fn stat(&mut self, key: &str) {
@@ -92,7 +99,13 @@ impl Harness {
             line.push(' ');
             line.push_str(&a.to_string());
         }
+        if let Some(p) = &self.trace_path {
+            let _ = std::fs::write(p, &line);
+        }
+        let base = crate::alloc::current();
+        crate::alloc::reset_peak();
         let out = catch_unwind(AssertUnwindSafe(f)).unwrap_or(Out::Panic);
+        self.last_peak = crate::alloc::peak().saturating_sub(base);
         // a value-level tape must be consumed exactly
         let left = strand::verif_hooks::exp_tape_len();
         strand::verif_hooks::load_exp_tape(vec![]);
